@@ -332,7 +332,20 @@ def broker_steps(sc, tr, idx):
         if gobs is None:
             gobs = "OPanic"
         g_calls = gl([g_uo(c["order"]) for c in calls if c.get("call") == "insert_order"])
-        g_deliv = gl([g_uo(c["order"]) for c in calls if c.get("effect") == "insert_order"])
+        # what reached the exchange: what its buffer gained over the step as the hook shows it (a check's tick admits the
+        # whole buffer first, so everything buffered afterwards arrived during the step); the client's own record of its
+        # effects only when the step panicked and there is no post-state
+        effects = [c["order"] for c in calls if c.get("effect") == "insert_order"]
+        if not panic and tr["snaps"][k]["server"] and tr["snaps"][k + 1]["server"]:
+            buf_pre = tr["snaps"][k]["server"]["exch"]["buffer"]
+            buf_post = tr["snaps"][k + 1]["server"]["exch"]["buffer"]
+            if o == "check" or buf_post[:len(buf_pre)] != buf_pre:
+                arrived = buf_post
+            else:
+                arrived = buf_post[len(buf_pre):]
+        else:
+            arrived = effects
+        g_deliv = gl([g_uo(x) for x in arrived])
         terms.append(gc("mkBStep", g_broker(pre, costs_name), gop, gobs, g_broker(post, costs_name),
                         gb(sc["lazy"]), g_calls, g_deliv))
         steps.append(dict(pre=pre, post=post, op=op, res=res, panic=panic, calls=calls,
